@@ -576,7 +576,13 @@ int dns_decode(char *buf, size_t buflen, struct query *q, qr_t qr, char *packet,
 			offset = 0;
 			i = 0;
 			while (names[i][0] != '\0') {
-				int l = MIN(strlen(names[i]), buflen-offset-2);
+				int l;
+
+				/* need room for at least one char and two \0;
+				   buflen is unsigned, do not let it wrap */
+				if (offset + 3 > buflen)
+					break;
+				l = MIN(strlen(names[i]), buflen-offset-2);
 				if (l <= 0)
 					break;
 				memcpy(buf + offset, names[i], l);
